@@ -318,6 +318,7 @@ def run(chk):
         for k_ in eng.stats:
             chk.engine_stats[k_] = chk.engine_stats.get(k_, 0) + eng.stats[k_]
     containers(chk)
+    dispatch_exactness(chk)
     bounded_sanity(chk)
 
 
@@ -454,3 +455,69 @@ def bounded_sanity(chk):
         ob.discharged += 1
     else:
         ob.refuted.append({"inputs": {"failures": r.get("failures")}, "model": "", "replay_confirmed": True, "replay_output": r})
+
+
+# ------------------------------------------------------------------------------------------------ which classes does encode accept?
+SUPPORTED = ("str", "bool", "int", "float", "bytes", "UUID", "Decimal", "datetime", "date", "list", "tuple", "dict", "BatchResult")
+
+
+def _replay_subclass(inputs):
+    from pyvc.check import native
+    r_ = native("subclass_serdes_replay.py", {})
+    return bool(r_.get("confirmed")), r_
+
+
+def dispatch_exactness(chk):
+    """TypeCodec.encode on a value of ARBITRARY class: the real match statement is executed with class tests as uninterpreted predicates
+    isinstance_K(v).  Specification (statement of C15: "an equal value of the same types ... a value that cannot be reproduced exactly is
+    rejected"): decode only ever constructs instances of exactly the supported classes (the round-trip obligations above), so an accepted
+    value must be an instance of EXACTLY one of them.  The dispatch accepts whatever passes an isinstance test."""
+    eng, hooks = make_engine(chk)
+    P = eng.program
+    st = St()
+    v = fresh("any", "value_of_any_class")
+    exact = {k: z3.Function("class_is_exactly_" + k, ANY, z3.BoolSort()) for k in SUPPORTED}
+    delegated = []
+
+    def codec(name):
+        def f(eng_, s, args, kwargs):
+            s.emit("delegated", codec=name, arg=args[1])
+            return [("val", s.alloc("opaque:EncodedValue", {}), s)]
+        return f
+    for c in ("PrimitiveCodec", "BytesCodec", "UuidCodec", "DecimalCodec", "DateTimeCodec", "ContainerCodec"):
+        eng.summaries[f"serdes.{c}.encode"] = codec(c)
+    base_ext = hooks.ext_call
+
+    def ext_call(eng_, s, name, args, kwargs):
+        if name == "bytes" and args and is_sym(args[0], "any") and hooks.type_of(s, args[0]) is None:
+            return [("val", hooks.typed(s, "bytes", "coerced_bytes"), s)]   # bytes(bytearray / memoryview / bytes subclass): a plain bytes object
+        return base_ext(eng_, s, name, args, kwargs)
+    hooks.ext_call = ext_call
+    tc = st.alloc(P.cls("serdes.TypeCodec"), {n: st.alloc(P.cls("serdes." + c), {}) for n, c in (("primitive_codec", "PrimitiveCodec"), ("bytes_codec", "BytesCodec"), ("uuid_codec", "UuidCodec"),
+                                                                                                  ("decimal_codec", "DecimalCodec"), ("datetime_codec", "DateTimeCodec"), ("container_codec", "ContainerCodec"))})
+    st.assume(z3.Not(ops.any_is_none(v.t)))
+    any_exact = z3.Or([f(v.t) for f in exact.values()])
+    n_acc = 0
+    for k, r, s in eng.run(P.func("serdes.TypeCodec.encode"), [tc, v], st=st):
+        chk.paths += 1
+        if k == "raise":
+            continue  # rejected with SerDesError: fine for every class
+        n_acc += 1
+        chk.prove("C15.dispatch.accepts_only_exact_classes", s.pc, any_exact,
+                  desc="a value that TypeCodec.encode accepts is an instance of EXACTLY one of the classes decode can construct (str, bool, int, float, bytes, UUID, Decimal, datetime, date, list, tuple, dict, BatchResult); "
+                       "otherwise the round trip returns an equal value of a DIFFERENT class (the base class) instead of rejecting it",
+                  regions={"accepted_subclass_instance": z3.Not(any_exact)}, describe=lambda m: {"value": "an instance of a proper subclass of a supported class (IntEnum, StrEnum, namedtuple, OrderedDict) or a bytearray"},
+                  replay=_replay_subclass, sample="TypeCodec.encode(v) for v of arbitrary class: accepted => class exactly supported")
+    chk.require_sat("C15.dispatch.accepting_paths", [z3.BoolVal(n_acc > 0)], desc="vacuity guard: the dispatch has accepting paths")
+    try:
+        from pyvc.check import native
+        r_ = native("subclass_serdes_replay.py", {})
+        chk.notes.append(f"native run of the accepted_subclass_instance region: confirmed={r_.get('confirmed')} cases={json_short(r_.get('cases'))}")
+    except Exception as e:  # noqa: BLE001
+        chk.notes.append(f"native run of the accepted_subclass_instance region failed: {e!r}")
+    return eng
+
+
+def json_short(o):
+    import json
+    return json.dumps(o)[:600]
